@@ -45,6 +45,8 @@ J World::to_json() const {
         if (f.second.open_errno) o.set("open_errno", f.second.open_errno);
         if (f.second.uid) o.set("uid", f.second.uid);
         if (f.second.kind == 4) o.set("fifo_free", (long long)f.second.fifo_free);
+        if (f.second.mode != 0644) o.set("perm", f.second.mode);
+        if (f.second.locked_by_other) o.set("locked_by_other", true);
         fs.set(f.first, o);
     }
     j.set("files", fs);
@@ -94,7 +96,7 @@ void World::from_json(const J &j) {
         for (auto it = files.begin(); it != files.end();) { if (it->first.compare(0, 6, "/proc/") != 0) it = files.erase(it); else ++it; }
         for (auto &p : j.at("files").o) {
             FileNode f; f.kind = (int)p.second.geti("kind"); f.content = p.second.gets("content");
-            f.open_errno = (int)p.second.geti("open_errno"); f.uid = (uint32_t)p.second.geti("uid"); f.fifo_free = (long)p.second.geti("fifo_free", -1);
+            f.open_errno = (int)p.second.geti("open_errno"); f.uid = (uint32_t)p.second.geti("uid"); f.fifo_free = (long)p.second.geti("fifo_free", -1); f.mode = (int)p.second.geti("perm", 0644); f.locked_by_other = p.second.getb("locked_by_other");
             files[p.first] = f;
         }
     }
@@ -172,7 +174,7 @@ J Op::to_json() const {
         if (have_schedule) { J s = J::arr(); for (int c : schedule) s.push(J(c)); j.set("schedule", s); }
         if (app_opens) j.set("app_opens", app_opens);
     } else if (op == "ForkExec") {
-        j.set("call", ex.to_json()); j.set("fork_point", fork_point); j.set("child", child_ex.to_json()); j.set("grandchild", grandchild);
+        j.set("call", ex.to_json()); j.set("fork_point", fork_point); j.set("child", child_ex.to_json()); j.set("grandchild", grandchild); if (fork_window) j.set("fork_window", true);
         if (!extra_calls.empty()) { J xs = J::arr(); for (size_t i = 0; i < extra_calls.size(); i++) { J x = J::obj(); x.set("call", extra_calls[i].to_json()); x.set("point", extra_points[i]); xs.push(x); } j.set("others", xs); }
     } else if (op == "Mutate") { j.set("patch", patch); }
     return j;
@@ -187,7 +189,7 @@ Op Op::from_json(const J &j) {
         if (j.has("schedule")) { o.have_schedule = true; for (auto &c : j.at("schedule").a) o.schedule.push_back((int)c.i); }
         o.app_opens = (int)j.geti("app_opens", 0);
     } else if (o.op == "ForkExec") {
-        o.ex = ExecOp::from_json(j.at("call")); o.fork_point = (int)j.geti("fork_point"); o.child_ex = ExecOp::from_json(j.at("child")); o.grandchild = j.getb("grandchild");
+        o.ex = ExecOp::from_json(j.at("call")); o.fork_point = (int)j.geti("fork_point"); o.child_ex = ExecOp::from_json(j.at("child")); o.grandchild = j.getb("grandchild"); o.fork_window = j.getb("fork_window");
         if (j.has("others")) for (auto &x : j.at("others").a) { o.extra_calls.push_back(ExecOp::from_json(x.at("call"))); o.extra_points.push_back((int)x.geti("point")); }
     } else if (o.op == "Mutate") { o.patch = j.at("patch"); }
     return o;
